@@ -15,7 +15,7 @@ RULE = ("(c) schedules: for a tree whose 5 (quick) / 6 (thorough) files all pass
         "seam at a time, plus {identity, reverse}^4 across the seams, and the same for a tree with hard links next to a copy under "
         "--rf-under 3 / --rf-over 2 / --rf-under 2 (all 5! orders per seam); (a) every --threads spec name in {none, main, "
         "default, ssd} x (r,s) in {0,1,2,64}^2 and pairs main:x + default:y, and 8 large-pool specs x transforms using $IN / $OUT on a tree with equal base names in different directories; (b) every permutation of 3-4 roots and "
-        "--stdin, --stdin together with --transform (fclones starts child processes that inherit its descriptors: both orders of 'child runs' / 'fclones signals the child' at every signal the run sends, by pausing the subject at the kill call), and overlapping roots (r, r/sub) in both orders x walking-pool sizes x {--depth 1/2, --hidden, -L}; (d) hash function x --max-prefix-size x --max-suffix-size x disk kind x cache, and a tree split over two devices (scratch fs + loop mount) with every pair of kinds in {ssd, hdd, unknown}^2 pinned per device. A state is one complete "
+        "--stdin, --stdin together with --transform (fclones starts child processes that inherit its descriptors: both orders of 'child runs' / 'fclones signals the child' at every signal the run sends, by pausing the subject at the kill call), and overlapping roots (r, r/sub) in both orders x walking-pool sizes x {--depth 1/2, --hidden, -L}; (e) --cache cold / warm / warm again under transforms that keep, shorten and double the data: report body identical to the uncached one; (d) hash function x --max-prefix-size x --max-suffix-size x disk kind x cache, and a tree split over two devices (scratch fs + loop mount) with every pair of kinds in {ssd, hdd, unknown}^2 pinned per device. A state is one complete "
         "execution of the real binary under one schedule/configuration; transitions are the messages delivered at the "
         "seams. Invariant: report body (lengths, hashes, paths, order) byte-identical within (a)-(c); partition into "
         "groups identical within (d); every run ends within 120 s.")
@@ -96,6 +96,9 @@ def cases(tier, seed):
     for tr in (["--transform", "cat"], ["--transform", "head -c 1000000"], ["--transform", "cat $IN"],
                ["--transform", "fcv-tr keep - $OUT"]):
         out.append({"kind": "stdin_child", "tree": "multi", "args": tr})
+    # cache x transform: a warm cache may change nothing, also when the transform changes the length of the data
+    for tr in (["--transform", "head -c 1000"], ["--transform", "cat"], ["--transform", "fcv-tr double"]):
+        out.append({"kind": "cache_transform", "tree": "multi", "args": tr})
     # one tree spread over two devices (tmpfs scratch + loop-mounted ext4) whose kinds are pinned independently
     out.append({"kind": "mixed_devices", "tree": "two_devices"})
     hashes = ["metro", "blake3"] if quick else ["metro", "xxhash", "blake3", "sha256", "sha512", "sha3-256", "sha3-512"]
@@ -301,6 +304,18 @@ def _evaluate(case, sc, loop_mp):
                     check("overlap:%s:%s:%s" % (" ".join(case["extra"]), " ".join(order), " ".join(spec)),
                           spec + case["extra"] + order, env0, "overlapping_roots")
                     transitions += 1
+        elif case["kind"] == "cache_transform":
+            # (the baseline above ran the same transform without the cache)
+            for h in ("metro", "blake3"):
+                e0, hb = run(sc, ["--hash-fn", h] + roots, env0)
+                if e0:
+                    raise C.MachineryError("uncached transform run failed: %s" % e0)
+                saved, base = base, hb
+                for rep in range(3):
+                    check("cache_transform:%s:%s:%d" % (" ".join(case["args"]), h, rep), ["--hash-fn", h, "--cache"] + roots, env0,
+                          "cache_with_transform")
+                    transitions += 1
+                base = saved
         elif case["kind"] == "mixed_devices":
             # the scratch file system is found through the mount point '/', the loop mount through its own
             kinds = ("ssd", "hdd", "unknown")
@@ -327,7 +342,7 @@ def finish(stats, tier):
     from .. import common as C2
     if C2.can_loop_mount() and not stats["outcomes"].get("mixed_devices"):
         out.append("no mixed_devices case ran")
-    for k in ("seam", "cross_seam", "threads", "roots", "config", "overlap", "stdin_child"):
+    for k in ("seam", "cross_seam", "threads", "roots", "config", "overlap", "stdin_child", "cache_transform"):
         if not stats["outcomes"].get(k):
             out.append("no %s case ran" % k)
     return out
